@@ -32,6 +32,7 @@ type Agg struct{ Elems []Value }
 type Ptr struct {
 	Obj  int
 	Path []int
+	Sum  string // untracked pointers only: by-type summary key of the pointee (Stage B), "" if none
 }
 
 // Slice is a slice value: a window [Off, Off+Len) of a tracked array
@@ -40,6 +41,7 @@ type Slice struct {
 	Arr *Ptr
 	Off Itv
 	Len Itv
+	Sum string // untracked backing only: by-type summary key of the elements (Stage B)
 }
 
 // Tuple is a multi-value result.
@@ -70,13 +72,15 @@ func (*Fn) kind() string     { return "func" }
 func (Nil) kind() string     { return "nil" }
 func (*Opaque) kind() string { return "opaque" }
 
-func mkInt(i Itv) *Int          { return &Int{Itv: i} }
-func constInt(c int64) *Int     { return &Int{Itv: itv64(c, c)} }
-func (v *Int) wrapped() bool    { return len(v.Org) > 0 }
-func (v *Int) String() string   { return v.Itv.String() }
-func (p *Ptr) String() string   { return fmt.Sprintf("&obj%d%v", p.Obj, p.Path) }
-func (p *Ptr) tracked() bool    { return p.Obj != 0 }
-func (p *Ptr) sub(i int) *Ptr   { return &Ptr{p.Obj, append(append([]int(nil), p.Path...), i)} }
+func mkInt(i Itv) *Int        { return &Int{Itv: i} }
+func constInt(c int64) *Int   { return &Int{Itv: itv64(c, c)} }
+func (v *Int) wrapped() bool  { return len(v.Org) > 0 }
+func (v *Int) String() string { return v.Itv.String() }
+func (p *Ptr) String() string { return fmt.Sprintf("&obj%d%v", p.Obj, p.Path) }
+func (p *Ptr) tracked() bool  { return p.Obj != 0 }
+func (p *Ptr) sub(i int) *Ptr {
+	return &Ptr{Obj: p.Obj, Path: append(append([]int(nil), p.Path...), i)}
+}
 func untrackedPtr() *Ptr        { return &Ptr{} }
 func opaque(why string) *Opaque { return &Opaque{Why: why} }
 
@@ -224,13 +228,22 @@ func joinValues(a, b Value) Value {
 						p[i] = -1
 					}
 				}
-				return &Ptr{x.Obj, p}
+				return &Ptr{Obj: x.Obj, Path: p, Sum: x.Sum}
+			}
+			if !x.tracked() && !y.tracked() {
+				if x.Sum == y.Sum {
+					return x
+				}
+				return untrackedPtr()
 			}
 			return opaque("pointer join")
 		}
 	case *Slice:
 		if y, ok := b.(*Slice); ok {
 			r := &Slice{Off: x.Off.Join(y.Off), Len: x.Len.Join(y.Len)}
+			if x.Sum == y.Sum {
+				r.Sum = x.Sum
+			}
 			if x.Arr != nil && y.Arr != nil {
 				if p, ok := joinValues(x.Arr, y.Arr).(*Ptr); ok {
 					r.Arr = p
@@ -291,7 +304,7 @@ func leqValue(a, b Value) bool {
 		return true
 	case *Ptr:
 		x, ok := a.(*Ptr)
-		if !ok || x.Obj != y.Obj || len(x.Path) != len(y.Path) {
+		if !ok || x.Obj != y.Obj || len(x.Path) != len(y.Path) || x.Sum != y.Sum {
 			return false
 		}
 		for i := range x.Path {
@@ -302,7 +315,7 @@ func leqValue(a, b Value) bool {
 		return true
 	case *Slice:
 		x, ok := a.(*Slice)
-		if !ok || !x.Off.Leq(y.Off) || !x.Len.Leq(y.Len) {
+		if !ok || !x.Off.Leq(y.Off) || !x.Len.Leq(y.Len) || x.Sum != y.Sum {
 			return false
 		}
 		if y.Arr == nil {
@@ -366,10 +379,12 @@ type Memory struct {
 	base    map[int]Value
 	cells   map[int]Value
 	written map[int]bool // objects stored to on this path
+	read    map[int]bool // objects loaded from on this path
+	shared  map[int]bool // objects whose address escaped into untracked memory (Stage B)
 }
 
 func newMemory(base map[int]Value) *Memory {
-	return &Memory{base: base, cells: map[int]Value{}, written: map[int]bool{}}
+	return &Memory{base: base, cells: map[int]Value{}, written: map[int]bool{}, read: map[int]bool{}, shared: map[int]bool{}}
 }
 
 func (m *Memory) clone() *Memory {
@@ -381,7 +396,15 @@ func (m *Memory) clone() *Memory {
 	for k := range m.written {
 		w[k] = true
 	}
-	return &Memory{base: m.base, cells: c, written: w}
+	sh := make(map[int]bool, len(m.shared))
+	for k := range m.shared {
+		sh[k] = true
+	}
+	rd := make(map[int]bool, len(m.read))
+	for k := range m.read {
+		rd[k] = true
+	}
+	return &Memory{base: m.base, cells: c, written: w, read: rd, shared: sh}
 }
 
 func (m *Memory) root(obj int) (Value, bool) {
@@ -401,6 +424,7 @@ func (m *Memory) load(p *Ptr) (Value, bool) {
 	if !ok {
 		return nil, false
 	}
+	m.read[p.Obj] = true
 	return loadPath(v, p.Path)
 }
 
@@ -498,6 +522,18 @@ func joinMemory(a, b *Memory) *Memory {
 	}
 	for k := range b.written {
 		out.written[k] = true
+	}
+	for k := range a.shared {
+		out.shared[k] = true
+	}
+	for k := range b.shared {
+		out.shared[k] = true
+	}
+	for k := range a.read {
+		out.read[k] = true
+	}
+	for k := range b.read {
+		out.read[k] = true
 	}
 	for k, v := range a.cells {
 		if w, ok := b.root(k); ok {
